@@ -111,6 +111,25 @@ class FuncFrames:
             elif isinstance(n, ast.AugAssign) and isinstance(n.target, ast.Name):
                 pass
         self.own = assigned_alloc - assigned_other - self.params
+        # a local bound (only ever) to a PART of an owned container - `inner = own.setdefault(k, {})`,
+        # `inner = own[k]`, `inner = own.get(k)` - is owned too: writing through it writes into the
+        # object this call allocated.  Iterated to a fixed point (parts of parts).
+        changed = True
+        while changed:
+            changed = False
+            derived = {}
+            for n in nodes:
+                if isinstance(n, (ast.Assign, ast.AnnAssign)) and getattr(n, "value", None) is not None:
+                    targets = n.targets if isinstance(n, ast.Assign) else [n.target]
+                    for t in targets:
+                        if isinstance(t, ast.Name):
+                            derived.setdefault(t.id, []).append(self._part_of_own(n.value))
+            for nm, flags in derived.items():
+                if nm not in self.own and nm not in self.params and all(flags) and nm not in {
+                        e.id for n in nodes if isinstance(n, (ast.For, ast.comprehension)) for e in ast.walk(n.target) if isinstance(e, ast.Name)}:
+                    self.own.add(nm)
+                    assigned_other.discard(nm)
+                    changed = True
         self.other_locals = assigned_other | self.params
         for n in nodes:
             if isinstance(n, (ast.Assign, ast.AnnAssign, ast.AugAssign)):
@@ -135,6 +154,21 @@ class FuncFrames:
                     self._site(n, n.args[0] if n.args else f.value, call=True)
             elif isinstance(n, ast.Attribute) and n.attr == "__dict__" and isinstance(n.ctx, ast.Store):
                 self._site(n, n)
+
+    def _part_of_own(self, value):
+        """value is own[...] / own.attr-free part / own.setdefault(...) / own.get(...) for an owned root"""
+        v = value
+        if isinstance(v, ast.Call) and isinstance(v.func, ast.Attribute) and v.func.attr in ("setdefault", "get", "pop"):
+            # setdefault(k, default): the default must itself be fresh or a part of an owned object
+            if v.func.attr == "setdefault" and len(v.args) >= 2 and not (is_alloc(v.args[1]) or self._part_of_own(v.args[1])):
+                return False
+            v = v.func.value
+        elif isinstance(v, ast.Subscript):
+            v = v.value
+        else:
+            return False
+        r = root_name(v)
+        return r is not None and r in self.own
 
     def _is_module_expr(self, node):
         """chartparse.tick.add(...) is a module function, not a mutating method"""
